@@ -127,10 +127,17 @@ type node struct {
 func (p *Proxy) OnEvent(event proxycore.Event) {
 	switch evt := event.(type) {
 	case *proxycore.SchemaChangeEvent:
-		p.eventClients.Range(func(key, _ interface{}) bool {
+		p.eventClients.Range(func(key, value interface{}) bool {
 			cl := key.(*client)
+			// The event is sent using the protocol version of the client's connection (it can be different from the
+			// version negotiated with the cluster). Function and aggregate changes can't be expressed before v4.
+			version := value.(primitive.ProtocolVersion)
+			if version < primitive.ProtocolVersion4 && (evt.Message.Target == primitive.SchemaChangeTargetFunction ||
+				evt.Message.Target == primitive.SchemaChangeTargetAggregate) {
+				return true
+			}
 			// Encoding a frame updates its header so every client's writer goroutine is given its own frame
-			frm := frame.NewFrame(p.cluster.NegotiatedVersion, -1, evt.Message)
+			frm := frame.NewFrame(version, -1, evt.Message)
 			err := cl.conn.Write(proxycore.SenderFunc(func(writer io.Writer) error {
 				return cl.codec.EncodeFrame(frm, writer)
 			}))
@@ -533,8 +540,8 @@ func (p *Proxy) addClient(cl *client) {
 	p.clients[cl] = struct{}{}
 }
 
-func (p *Proxy) registerForEvents(cl *client) {
-	p.eventClients.Store(cl, struct{}{})
+func (p *Proxy) registerForEvents(cl *client, version primitive.ProtocolVersion) {
+	p.eventClients.Store(cl, version)
 }
 
 func (p *Proxy) removeClient(cl *client) {
@@ -602,7 +609,7 @@ func (c *client) Receive(reader io.Reader) error {
 	case *message.Register:
 		for _, t := range msg.EventTypes {
 			if t == primitive.EventTypeSchemaChange {
-				c.proxy.registerForEvents(c)
+				c.proxy.registerForEvents(c, raw.Header.Version)
 			}
 		}
 		c.send(raw.Header, &message.Ready{})
